@@ -129,3 +129,143 @@ func VNow() time.Time {
 // Since / Until replace time.Since / time.Until (which read the real clock).
 func Since(t time.Time) time.Duration { return VNow().Sub(t) }
 func Until(t time.Time) time.Duration { return t.Sub(VNow()) }
+
+// ---- time.Timer / time.Ticker / time.After / time.AfterFunc on the virtual clock ----
+//
+// Instrumented code has `time.Timer`, `time.Ticker`, `time.NewTimer`,
+// `time.NewTicker`, `time.After`, `time.AfterFunc`, `time.Tick` rewritten to
+// the names below. A timer fires when the scheduler gets to it (at quiescence,
+// earliest first): the value is put into the one-slot channel, an AfterFunc
+// runs as a thread of its own.
+
+// Timer mirrors time.Timer.
+type Timer struct {
+	C  <-chan time.Time
+	c  chan time.Time
+	f  func()
+	t  *timer
+	ep int64
+}
+
+func (tm *Timer) arm(d time.Duration) {
+	s := S
+	tm.ep = Epoch()
+	if s == nil || s.aborting {
+		return
+	}
+	s.nextObj++
+	t := &timer{at: s.now + d, seq: s.nextObj}
+	t.cancel = func() {
+		if tm.f != nil {
+			s.spawn("afterfunc", tm.f)
+			return
+		}
+		select {
+		case tm.c <- vepoch.Add(s.now):
+		default:
+		}
+	}
+	tm.t = t
+	if d < 0 {
+		t.at = s.now
+	}
+	s.timers = append(s.timers, t)
+}
+
+// NewTimer replaces time.NewTimer.
+func NewTimer(d time.Duration) *Timer {
+	c := make(chan time.Time, 1)
+	tm := &Timer{C: c, c: c}
+	tm.arm(d)
+	return tm
+}
+
+// AfterFunc replaces time.AfterFunc.
+func AfterFunc(d time.Duration, f func()) *Timer {
+	tm := &Timer{f: f}
+	tm.arm(d)
+	return tm
+}
+
+// After replaces time.After.
+func After(d time.Duration) <-chan time.Time { return NewTimer(d).C }
+
+// Stop mirrors (*time.Timer).Stop: reports whether the call stopped the timer before it fired.
+func (tm *Timer) Stop() bool {
+	s := S
+	if s == nil || tm.t == nil || tm.ep != Epoch() {
+		return false
+	}
+	PointOp("Timer.Stop", 0)
+	active := !tm.t.fired
+	for _, x := range s.timers {
+		if x == tm.t {
+			s.removeTimer(tm.t)
+			return active
+		}
+	}
+	return false
+}
+
+// Reset mirrors (*time.Timer).Reset.
+func (tm *Timer) Reset(d time.Duration) bool {
+	active := tm.Stop()
+	tm.arm(d)
+	return active
+}
+
+// Ticker mirrors time.Ticker.
+type Ticker struct {
+	C       <-chan time.Time
+	c       chan time.Time
+	d       time.Duration
+	t       *timer
+	stopped bool
+	ep      int64
+}
+
+func (tk *Ticker) arm() {
+	s := S
+	tk.ep = Epoch()
+	if s == nil || s.aborting || tk.stopped {
+		return
+	}
+	s.nextObj++
+	t := &timer{at: s.now + tk.d, seq: s.nextObj}
+	t.cancel = func() {
+		select {
+		case tk.c <- vepoch.Add(s.now):
+		default: // a slow receiver drops ticks, like the real ticker
+		}
+		tk.arm()
+	}
+	tk.t = t
+	s.timers = append(s.timers, t)
+}
+
+// NewTicker replaces time.NewTicker.
+func NewTicker(d time.Duration) *Ticker {
+	if d <= 0 {
+		panic("non-positive interval for NewTicker")
+	}
+	c := make(chan time.Time, 1)
+	tk := &Ticker{C: c, c: c, d: d}
+	tk.arm()
+	return tk
+}
+
+// Tick replaces time.Tick.
+func Tick(d time.Duration) <-chan time.Time { return NewTicker(d).C }
+
+func (tk *Ticker) Stop() {
+	tk.stopped = true
+	if s := S; s != nil && tk.t != nil && tk.ep == Epoch() {
+		s.removeTimer(tk.t)
+	}
+}
+
+func (tk *Ticker) Reset(d time.Duration) {
+	tk.Stop()
+	tk.stopped, tk.d = false, d
+	tk.arm()
+}
